@@ -9,7 +9,7 @@ for d in seeded/C*_[a-z]; do
   tools/try_seed.sh $S $ID quick > $LOG 2>&1; RC=$?
   FIRST=$(grep -m1 "^VIOLATION" $LOG | sed 's/.*obligation=//' | cut -c1-200)
   NV=$(grep -c "^VIOLATION" $LOG)
-  DED=$(grep "^VIOLATION" $LOG | grep -vc "/bounded/\|/watchdog/")
+  DED=$(grep "^VIOLATION" $LOG | grep -vc "bounded\|/watchdog/")
   python3 - "$S" "$ID" "$RC" "$FIRST" "$NV" "$DED" >> $OUT <<'PY'
 import json,sys
 s,i,rc,first,nv,ded=sys.argv[1:7]
